@@ -322,6 +322,29 @@ def check_connect(ctx, fb, rule):
                                                   for t in ptypes[:2])
         res = CoreWalker(fb).run(f)
         ctx.instance(rule, key + ' :: ' + f.full[:120], dict(function=f.full[:200], paths=len(res)))
+        # the other legitimate form: a continuation attached to the source that completes the promise.  It must take
+        # the whole Result — a value-only callback is skipped on failure and the promise, destroyed with the skipped
+        # callback, completes with StopError instead of the failure that was set
+        attach = [c for c in f.calls() if c['cn'].split('::')[-1] in ('DetachInline', 'Detach', 'SubscribeInline',
+                                                                       'Subscribe')]
+        if attach and not any(e[0] == 'registered' for st, _ in res for e in st.events):
+            ops = []
+            for c in attach:
+                for d in f.descendants(c['i']):
+                    m = f.nodes[d]
+                    if m['k'] == 'LambdaExpr':
+                        ops += [fb.fn[k] for k in [m.get('lam')] + list(m.get('lams', [])) if k in fb.fn]
+            if not ops:
+                ctx.broken('R-CONNECT: %s attaches a continuation that is not a lambda' % f.full[:120])
+            whole = all(len(g.params) == 1 and 'yaclib::Result<' in g.locals[g.params[0]]['t'] for g in ops)
+            sets = all(any(c['cn'].split('::')[-1] == 'Set' for c in g.calls()) for g in ops)
+            if not whole:
+                ctx.report(rule, key, f.loc(attach[0]), 'Connect completes the promise from a continuation that does not '
+                           'take the whole Result: on a failure the callback is skipped and the promise it owns is '
+                           'destroyed unset — the consumer sees StopError instead of the exception / error that was Set')
+            elif not sets:
+                ctx.report(rule, key, f.loc(attach[0]), 'the continuation Connect attaches never Sets the promise')
+            continue
         for st, _ in res:
             ev = st.events
             reg = [e for e in ev if e[0] == 'registered']
@@ -1041,7 +1064,9 @@ class _GetWalker(pathwalk.Walker):
             cn = n.get('cn', '')
             if cn == 'yaclib::Wait' or cn.startswith('yaclib::Wait<') or cn == 'yaclib::detail::WaitCore':
                 st.events.append(('wait', fn.loc(n)))
-            elif cn.endswith('ResultCore::Get') or cn.endswith('::Retire'):
+            elif cn.endswith('ResultCore::Get') or cn.endswith('::Retire') or cn in (
+                    'yaclib::FutureBase::Touch', 'yaclib::SharedFutureBase::Touch', 'yaclib::Task::Touch'):
+                # Touch() states Ready() as its precondition: inside a Get() it is a read like any other
                 st.events.append(('read-result', fn.loc(n)))
 
     def on_edge(self, fn, ci, taken, st):
